@@ -60,13 +60,13 @@ def run(tier):
                       "confluence; every edge is replayed on the real patcher (fonts/patches synthesised byte-wise, "
                       "deterministic fault-injecting decoder) through apply_glyph_keyed_patches / "
                       "apply_table_keyed_patch and, for canonical orders, through PatchGroup with the caller's status "
-                      "map. distinct_nontrivial = edges that change the font.")
-    ck.assumptions = ["glyf/loca and gvar (short offsets) only; CFF/CFF2 charstrings are not modelled yet",
+                      "map; every header field of every catalogue patch is overwritten with boundary values and the patches are truncated (error or font, never a panic). IFTCff.tla: one charstring of the corpus CFF font is replaced so that the charstring data totals 65533..70000 bytes (both sides of the 2->3 byte INDEX offset threshold) and the patched INDEX is judged. distinct_nontrivial = edges that change the font.")
+    ck.assumptions = ["the state-graph model covers glyf/loca and gvar (short offsets); CFF charstrings are covered by the threshold family of IFTCff.tla on the corpus CFF font, CFF2 is not",
                       "Dec(stream, dict) = dict ++ stream stands for the brotli decoder",
                       "per-glyph data compared modulo the one zero padding byte short offsets require"]
     cat = json.load(open(CAT))
     wd = vlib.workdir(PID)
-    vlib.stage_specs(wd, "ift")
+    vlib.stage_specs(wd, "ift", "common")
     gen_mc(cat, wd, 2 if tier == "quick" else 3)
     r = vlib.run_tlc(wd, "MC_IFTApply", workers=6 if tier == "quick" else 14, timeout=3400)
     ck.add_tlc("tlc:IFTApply", r)
@@ -75,6 +75,21 @@ def run(tier):
     res = vlib.run_harness("fv-ift", ["c18", "--graph", r.out, "--catalogue", CAT])
     ck.add_harness("replay:IFTApply", res)
     os.remove(r.out)
+    # CFF charstrings: totals on both sides of the INDEX offset-size thresholds (IFTCff.tla)
+    r = vlib.run_tlc(wd, "IFTCffMC", cfg="IFTCffMC.cfg", workers=1, timeout=600)
+    ck.add_tlc("tlc:IFTCff", r)
+    if not r.ok:
+        ck.spec_error("IFTCffMC", r)
+    trace = os.path.join(wd, "cff.ndjson")
+    res = vlib.run_harness("fv-ift", ["c18", "--cff-cases", r.out, "--out", trace])
+    ck.add_harness("replay:cff", res, traces=False)
+    os.remove(r.out)
+    ok, info = vlib.validate_trace(wd, "IFTCff", trace, timeout=600)
+    ck.cov["parts"]["validate:cff"] = info
+    if ok:
+        ck.cov["traces_validated_against_impl"] += info.get("events", 0)
+    else:
+        ck.violation("IFTCff rejected a glyph keyed patch application on CFF charstrings: %s" % info.get("rejected", "")[:1200], {"kind": "cff-trace", "trace": trace})
     return ck.finish()
 
 
